@@ -74,10 +74,10 @@ func ruleForceDurationBoundaryTests(p *Prog, l *Ledger, tier string) {
 			op := bo.Op
 			var fld string
 			switch {
-			case p.rootValue(fn, bo.Y) == d:
-				_, fld, _ = loadedField(stripAllConv(bo.X))
-			case p.rootValue(fn, bo.X) == d:
-				_, fld, _ = loadedField(stripAllConv(bo.Y))
+			case throughLocalCell(p.rootValue(fn, bo.Y)) == d:
+				_, fld, _ = loadedField(stripAllConv(p.rootValue(fn, stripAllConv(bo.X))))
+			case throughLocalCell(p.rootValue(fn, bo.X)) == d:
+				_, fld, _ = loadedField(stripAllConv(p.rootValue(fn, stripAllConv(bo.Y))))
 				op = map[token.Token]token.Token{token.LSS: token.GTR, token.LEQ: token.GEQ, token.GTR: token.LSS, token.GEQ: token.LEQ}[op]
 			}
 			if fld != "StartAt" && fld != "EndAt" {
